@@ -123,7 +123,12 @@ pub fn run_case(out: &mut Out, kind: &str, c: &CallCase) {
             let o = if in_domain(c) { judge(c, &r, &seen) } else { None };
             let n = POLLED_AFTER_END.load(std::sync::atomic::Ordering::SeqCst);
             let o = if o.is_none() && n > 0 { Some(format!("a message stream was polled {} time(s) after it had returned None", n)) } else { o };
-            let o = if kind.ends_with("client_max_encoding") { o.map(|w| format!("F-C06b: over a real HTTP/2 connection {}", w)) } else { o };
+            // F-C06b (known finding): ONLY inside its class - client role, real h2, a request
+            // message strictly over the client's max_encoding_message_size.  What is guaranteed /
+            // observed inside the class is still checked (and reported untagged); the tag goes on
+            // the one verdict the finding is about: the caller does not see OUT_OF_RANGE.
+            let in_class = c.cl.max_enc.map(|l| c.req.iter().any(|i| matches!(i, Item::Ok(m) if m.len() > l))).unwrap_or(false) && c.cl.is_plain();
+            let o = if in_class { judge_reset_class(c, &r, &seen, n) } else { o };
             let rr = match &r {
                 ClientResult::Err(s) => ClientResult::Err(restrict_status(s, &keys)),
                 ClientResult::Unary(md, m) => ClientResult::Unary(restrict(md, &keys), m.clone()),
@@ -135,13 +140,52 @@ pub fn run_case(out: &mut Out, kind: &str, c: &CallCase) {
                 Seen::Stream(md, ms, e) => Seen::Stream(restrict(md, &keys), ms.clone(), restrict_end(e, &keys)),
             };
             let rejected = if matches!(seen, Seen::NotCalled) { reject_code(&r) } else { None };
-            (Tr::L(vec![result_tr_pub(&rr), seen_tr_code(&ss, rejected)]), o)
+            (Tr::L(vec![result_tr_pub(&rr), seen_tr_code(&ss, rejected), Tr::n(n as u64)]), o)
         }
     };
     describe(out, "h2", c);
     out.push(vcommon::Case { kind: kind.to_string(), input: case_json(c), model, impl_obs: obs, oracle, nontrivial: true });
 }
 
+/// inside the class of F-C06b: the checks that must still hold, then the known verdict
+fn judge_reset_class(c: &CallCase, r: &ClientResult, seen: &Seen, polled_after_end: usize) -> Option<String> {
+    let l = c.cl.max_enc.unwrap();
+    let sent: Vec<Vec<u8>> = c.req.iter().filter_map(|i| if let Item::Ok(m) = i { Some(m.clone()) } else { None }).collect();
+    let first_over = sent.iter().position(|m| m.len() > l).unwrap();
+    if polled_after_end > 0 {
+        return Some(format!("a message stream was polled {} time(s) after it had returned None", polled_after_end));
+    }
+    let got = match r {
+        ClientResult::Err(s) => s,
+        _ => return Some("a request message is over max_encoding_message_size but the call SUCCEEDED".into()),
+    };
+    match seen {
+        Seen::NotCalled => {
+            if c.req_streaming() {
+                return Some("the handler of a streaming-request shape was not called".into());
+            }
+        }
+        Seen::Unary(..) => return Some("the handler of a unary request was called although the request message was never sent".into()),
+        Seen::Stream(_, ms, e) => {
+            // nothing of the oversized message or after it; an error, never a clean end
+            if ms.len() > first_over || ms.iter().zip(sent.iter()).any(|(a, b)| a != b) {
+                return Some("the handler received the oversized message or something after it".into());
+            }
+            match e {
+                End::Err(_) => {}
+                End::Unread if c.reads.map(|j| j <= ms.len()).unwrap_or(false) => {}
+                _ => return Some(format!("the handler's request stream ended with {:?} although the request body failed", e)),
+            }
+        }
+    }
+    if got.code() == Code::OutOfRange {
+        return None; // the property holds (the finding does not reproduce: the driver will say so)
+    }
+    if got.code() != Code::Internal {
+        return Some(format!("the caller got {:?}: neither OUT_OF_RANGE nor the INTERNAL that Status::from_error derives from the stream reset", got.code()));
+    }
+    Some(format!("F-C06b: over a real HTTP/2 connection a request message of {} bytes over max_encoding_message_size({}) ends the call with {:?} {:?}, expected OUT_OF_RANGE", sent[first_over].len(), l, got.code(), got.message()))
+}
 /// when the handler was not called the server answered with a status of its own: its code is
 /// what the client got
 fn reject_code(r: &ClientResult) -> Option<u32> {
